@@ -107,10 +107,6 @@ func malformedMessage(c *Conversation) {
 }
 
 func (v otrV3) verifyInstanceTags(c *Conversation, their, our uint32) error {
-	if c.theirInstanceTag == 0 {
-		c.theirInstanceTag = their
-	}
-
 	if our > 0 && our < minValidInstanceTag {
 		malformedMessage(c)
 		return errInvalidOTRMessage
@@ -122,9 +118,15 @@ func (v otrV3) verifyInstanceTags(c *Conversation, their, our uint32) error {
 	}
 
 	if (our != 0 && c.ourInstanceTag != our) ||
-		(c.theirInstanceTag != their) {
+		(c.theirInstanceTag != 0 && c.theirInstanceTag != their) {
 		c.messageEvent(MessageEventReceivedMessageForOtherInstance)
 		return errReceivedMessageForOtherInstance
+	}
+
+	// Only a message with valid tags, addressed to us, can tell us
+	// which instance of the peer we are talking to
+	if c.theirInstanceTag == 0 {
+		c.theirInstanceTag = their
 	}
 
 	return nil
